@@ -15,12 +15,24 @@ def isInt (q : Rat) : Bool := q.den == 1
 def hopsOk (n : Nat) (hops : List V) : Bool :=
   hops.length + 1 == max n 1 && hops.all fun h => match h with | some d => decide (0 ≤ d) | none => true
 
-/-- The supplied hop distances are missing wherever one of the hop's four coordinates is
+/-- A hop distance is supplied whenever all four coordinates of the hop are present. -/
+def hopsExact (lon lat hops : List V) : Bool :=
+  (List.range (lon.length - 1)).all fun j =>
+    !(getV hops j).isNone ||
+      ((getV lon j).isNone || (getV lat j).isNone || (getV lon (j + 1)).isNone || (getV lat (j + 1)).isNone)
+
+/-- The supplied hop distances are missing exactly where one of the hop's four coordinates is
     (the harness computes them that way; the geodesic routine itself is outside the model). -/
 def hopsConsistent (lon lat hops : List V) : Bool :=
-  (List.range hops.length).all fun j =>
+  ((List.range hops.length).all fun j =>
     !((getV lon j).isNone || (getV lat j).isNone || (getV lon (j + 1)).isNone || (getV lat (j + 1)).isNone)
-      || (getV hops j).isNone
+      || (getV hops j).isNone) && hopsExact lon lat hops
+
+/-- Spans of a climatology member are sorted, as `ClimatologyConfig.add` stores them. -/
+def memberSorted (m : Member) : Bool :=
+  decide (m.tspan.1 ≤ m.tspan.2) && decide (m.vspan.1 ≤ m.vspan.2) &&
+  (match m.fspan with | some f => decide (f.1 ≤ f.2) | none => true) &&
+  (match m.zspan with | some z => decide (z.1 ≤ z.2) | none => true)
 
 def TestCall.inDom : TestCall → Bool
   | .gross _ _ _ => true
@@ -28,7 +40,7 @@ def TestCall.inDom : TestCall → Bool
   | .location lon lat _ r hops =>
       (lon.length != lat.length || hopsOk lon.length hops) && hopsConsistent lon lat hops &&
       (match r with | some q => decide (0 ≤ q) | none => true)
-  | .climatology _ inp t z => inp.length == t.length && inp.length == z.length
+  | .climatology ms inp t z => inp.length == t.length && inp.length == z.length && ms.all memberSorted
   | .spike _ _ _ _ => true
   | .roc inp t thr => (inp.length != t.length || increasing t) && decide (0 ≤ thr)
   | .flatLine inp t s f _ =>
